@@ -45,6 +45,7 @@ PredHolds(p, a) ==
     [] p = "p_eq"   -> PyEq(a[1], a[2])
     [] p = "p_pos"  -> NumOf(a[1]) > 0
     [] p = "p_true" -> TRUE
+    [] p = "p_qge2" -> NumOf(a[1]) >= 2        \* its body runs a query of its own
 
 RECURSIVE Val(_, _, _, _), Holds(_, _, _, _), Extend(_, _, _, _, _), ConcatFrom(_, _, _, _, _, _), Side(_, _, _, _)
 
